@@ -1,5 +1,6 @@
 import Srtla.Model.Sys
 import Srtla.Lemmas.Housekeeping
+import Srtla.Lemmas.ReconnectLive
 /-!
 # C08 — failed uplinks are detected, retried forever, and rejoin cleanly
 
@@ -8,10 +9,14 @@ Model: `Model/Link.lean` (reconnection state, resets), `Model/Sys.lean` (`hkLink
 scalar type `F` with every `[Scalar F]` instance (`Float` in the compiled driver): no float reasoning
 is involved.  `Hk.*` names are helper definitions of `Lemmas/Housekeeping.lean`:
 
-* `reconnectLink l now` — the record the reconnect branch of housekeeping leaves (`record_attempt`,
-  `reset_for_reconnect`, `mark_success`, `reset_startup_grace`), `withSent` = a `last_sent` stamp;
+* `reconnectLink l now` — the record the reconnect branch of housekeeping leaves when the socket
+  re-creation succeeds (`record_attempt`, `reset_for_reconnect`, `mark_success`, `reset_startup_grace`),
+  `failedLink l now` — the record it leaves when the re-creation FAILS (`record_attempt`, then the
+  `mark_for_recovery` fallback: failure counter kept, no grace), `attemptLink fails l now` — the one or
+  the other, `withSent` = a `last_sent` stamp;
 * `reg3Link l now` — the record the REG3 arm of `process_uplink_packet` leaves;
-* `hkLink classic now pending j l` — what one pass of the per-link housekeeping loop does to link `j`;
+* `hkLink classic now pending fails j l` — what one pass of the per-link housekeeping loop does to
+  link `j` (`fails`: a socket re-creation failure is injected for its conn id, `Sys.failBind`);
 * `Clean l` — window 20000, empty packet log, empty batch queue, in-flight 0, not connected.
 -/
 namespace Srtla.Props.C08
@@ -107,10 +112,10 @@ def run (s : Sys F) : List Ev → Sys F
 
 /-- Link `j` takes the reconnect branch of housekeeping in event `e` (a tick at `now`): it was timed
 out and `should_attempt_reconnect` held on the record the tick started with, and the tick left the
-reconnect record. -/
+reconnect record — of a successful (`fails = false`) or a failed socket re-creation. -/
 def AttemptAt (s : Sys F) (e : Ev) (j now : Nat) : Prop :=
   e = .hk now ∧ ∃ l, s.links[j]? = some l ∧ l.isTimedOut now = true ∧ l.shouldAttemptReconnect now = true ∧
-    ∃ t, (step s e).1.links[j]? = some (withSent (reconnectLink l now) t)
+    ∃ t fails, (step s e).1.links[j]? = some (withSent (attemptLink fails l now) t)
 
 /-- No reconnect attempt of link `j` along the events `es` from `s`. -/
 def Quiet (j : Nat) : Sys F → List Ev → Prop
@@ -137,9 +142,15 @@ theorem C08_attempt_stamp (s : Sys F) (e : Ev) (j : Nat) (l : FLink F) (hl : s.l
   | attempt now he hto hsa hlA =>
     right
     obtain ⟨t, ht⟩ := hlA
-    refine ⟨now, ⟨he, l, hl, hto, hsa, t, by rw [← ht]; exact hl'⟩, ?_, ?_⟩
+    refine ⟨now, ⟨he, l, hl, hto, hsa, t, false, by rw [hl', ht]; rfl⟩, ?_, ?_⟩
     · rw [ht]; exact (reconnectLink_fields l now).1
     · rw [ht]; exact (reconnectLink_fields l now).2.2.1
+  | attemptFailed now he hto hsa _ hlA =>
+    right
+    obtain ⟨t, ht⟩ := hlA
+    refine ⟨now, ⟨he, l, hl, hto, hsa, t, true, by rw [hl', ht]; rfl⟩, ?_, ?_⟩
+    · rw [ht]; exact (failedLink_fields l now).1
+    · rw [ht]; exact (failedLink_fields l now).2.2.1
 
 theorem C08_aux_links_length_run (s : Sys F) (es : List Ev) : (run s es).links.length = s.links.length := by
   induction es generalizing s with
@@ -169,9 +180,9 @@ theorem C08_retry_spacing_trace (s : Sys F) (j t1 t2 : Nat) (mid : List Ev)
     (h2 : AttemptAt (run (step s (.hk t1)).1 mid) (.hk t2) j t2) :
     ∃ l, (run (step s (.hk t1)).1 mid).links[j]? = some l ∧ l.lastAttemptMs = t1 ∧
       (t1 = 0 ∨ (l.established = 0 ∧ t2 - t1 ≥ 1000) ∨ (l.established ≠ 0 ∧ t2 - t1 ≥ 5000)) := by
-  obtain ⟨-, l0, hl0, -, -, t, hpost⟩ := h1
+  obtain ⟨-, l0, hl0, -, -, t, fails, hpost⟩ := h1
   obtain ⟨l, hl, hstamp⟩ := C08_aux_quiet_keeps_stamp j _ mid hq _ hpost
-  have hst : l.lastAttemptMs = t1 := hstamp.trans (reconnectLink_fields l0 t1).1
+  have hst : l.lastAttemptMs = t1 := hstamp.trans (attemptLink_fields fails l0 t1).1
   obtain ⟨-, l', hl', -, hsa, -⟩ := h2
   rw [hl] at hl'; cases hl'
   refine ⟨l, hl, hst, ?_⟩
@@ -185,15 +196,13 @@ by the tick at 7000 and — nothing else happening — again by the tick at 1200
 hypotheses hold and its conclusion reads "5000 apart". -/
 example : ∃ l, (run (step exSys (.hk 7000)).1 ([] : List Ev)).links[1]? = some l ∧ l.lastAttemptMs = 7000 ∧
     (7000 = 0 ∨ (l.established = 0 ∧ 12000 - 7000 ≥ 1000) ∨ (l.established ≠ 0 ∧ 12000 - 7000 ≥ 5000)) := by
-  have h1 : AttemptAt exSys (.hk 7000) 1 7000 :=
-    hk_attempts exSys 7000 1 exDown rfl (by decide) (by decide) (Or.inr (by decide)) |>
-      fun ⟨t, ht⟩ => ⟨rfl, exDown, rfl, by decide, by decide, t, ht⟩
-  obtain ⟨-, l0, hl0, -, -, t, hpost⟩ := id h1
-  cases hl0
+  obtain ⟨t, hpost⟩ := hk_attempts_ok exSys 7000 1 exDown rfl (by decide) (by decide) (Or.inr (by decide))
+    (by decide)
+  have h1 : AttemptAt exSys (.hk 7000) 1 7000 := ⟨rfl, exDown, rfl, by decide, by decide, t, false, hpost⟩
   have h2 : AttemptAt (run (step exSys (.hk 7000)).1 []) (.hk 12000) 1 12000 :=
     hk_attempts _ 12000 1 _ hpost rfl rfl
         (Or.inr (by show (reconnectLink exDown 7000).established ≠ 0; decide)) |>
-      fun ⟨t', ht'⟩ => ⟨rfl, _, hpost, rfl, rfl, t', ht'⟩
+      fun ⟨t', ht'⟩ => ⟨rfl, _, hpost, rfl, rfl, t', _, ht'⟩
   exact C08_retry_spacing_trace exSys 1 7000 12000 [] h1 trivial h2
 
 /-- … and the tick at 11999 does not re-attempt (4999 ms after the attempt at 7000). -/
@@ -207,19 +216,21 @@ before), and whose last attempt is absent or at least 120000 ms old takes the re
 for every value of every other field (failure counter, phase, window, stall/quality state, …): no
 state disables retries, there is no attempt limit. -/
 theorem C08_retries_forever_loop (classic : Bool) (now : Nat) (ls : List (FLink F)) (i : Nat) (reg : Reg.Reg)
+    (fb : List Nat)
     (j : Nat) (l : FLink F) (hl : ls[j]? = some l) (hto : l.isTimedOut now = true)
     (hg : l.established ≠ 0 ∨ l.graceDeadline < now)
     (ha : l.lastAttemptMs = 0 ∨ now - l.lastAttemptMs ≥ 120000) :
-    ∃ t, (hkLinksGo classic now ls i reg).1[j]? = some (withSent (reconnectLink l now) t) := by
+    ∃ t, (hkLinksGo classic now ls i reg fb).1[j]? =
+      some (withSent (attemptLink ((hkBindLeft now (ls.take j) fb).contains l.core.connId) l now) t) := by
   have hsa := shouldAttempt_of_old l now hg ha
-  rw [(hkLinksGo_links classic now ls i reg).1, List.getElem?_mapIdx, hl]
+  rw [(hkLinksGo_links classic now ls i reg fb).1, List.getElem?_mapIdx, hl]
   simp only [Option.map_some]
   unfold hkLink
   rw [if_pos hto, if_pos hsa]
   split
   · split
     · exact ⟨_, rfl⟩
-    · exact ⟨reconnectLink l now |>.core.lastSent, rfl⟩
+    · exact ⟨(attemptLink _ l now).core.lastSent, rfl⟩
   · exact ⟨_, rfl⟩
 
 /-- **The whole tick**: the same for `handle_housekeeping`.  The only qualification is the very tick
@@ -237,7 +248,7 @@ theorem C08_retries_forever (s : Sys F) (now j : Nat) (l : FLink F) (hl : s.link
     · left; rw [hkGraceIdx_none s now hp]; simp
     · right; exact hp
   obtain ⟨t, ht⟩ := hk_attempts s now j l hl hto hsa hg'
-  exact ⟨rfl, l, hl, hto, hsa, t, ht⟩
+  exact ⟨rfl, l, hl, hto, hsa, t, _, ht⟩
 
 /-- Whenever the branch condition holds the attempt is made (so `Quiet` in section 2 really means
 "the reconnect branch was not taken"). -/
@@ -250,7 +261,7 @@ theorem C08_attempt_taken (s : Sys F) (now j : Nat) (l : FLink F) (hl : s.links[
     · left; rw [hkGraceIdx_none s now hp]; simp
     · right; exact hp
   obtain ⟨t, ht⟩ := hk_attempts s now j l hl hto hsa hg'
-  exact ⟨rfl, l, hl, hto, hsa, t, ht⟩
+  exact ⟨rfl, l, hl, hto, hsa, t, _, ht⟩
 
 /-- Non-vacuity: a link with a huge failure counter, last attempt 120000 ms ago, is re-attempted. -/
 example : AttemptAt ({ exSys with links := [exLive, { exDown with failCount := 4000000000 }] } : Sys Int)
@@ -303,12 +314,14 @@ theorem C08_teardown_causes (s : Sys F) (e : Ev) (j : Nat) (l l' : FLink F)
     right; right
     exact ⟨now, cid, data, he, hidx, (regEvent_of_type s.reg j data now).1.mp hev⟩
   | attempt now he hto hsa _ => left; exact ⟨now, he, hto, hsa⟩
+  | attemptFailed now he hto hsa _ _ => left; exact ⟨now, he, hto, hsa⟩
 
 /-- Non-vacuity: the live link of `exSys` (last heard at 1000, timeout 5000, never attempted) is torn
 down by the tick at 6000 — cause (a). -/
 example : ∃ l', (step exSys (.hk 6000)).1.links[0]? = some l' ∧ TornDown exLive l' ∧
     Cause exSys (.hk 6000) 0 exLive := by
-  obtain ⟨t, ht⟩ := hk_attempts exSys 6000 0 exLive rfl (by decide) (by decide) (Or.inr (by decide))
+  obtain ⟨t, ht⟩ := hk_attempts_ok exSys 6000 0 exLive rfl (by decide) (by decide) (Or.inr (by decide))
+    (by decide)
   exact ⟨_, ht, Or.inl ⟨by decide, rfl⟩, C08_teardown_causes exSys (.hk 6000) 0 exLive _ rfl ht (Or.inl ⟨by decide, rfl⟩)⟩
 
 /-- For a connected link "timed out" means exactly: something was received before, and the silence
@@ -381,6 +394,11 @@ theorem C08_timeout_copy (s : Sys F) :
       obtain ⟨t, ht⟩ := hlA
       rw [ht]
       exact (reconnectLink_fields l now).2.2.2.2.2.2.2.2.1
+    | attemptFailed now he hto hsa _ hlA =>
+      left
+      obtain ⟨t, ht⟩ := hlA
+      rw [ht]
+      exact (failedLink_fields l now).2.2.2.2.2.2.2.1
 
 /-- Non-vacuity: with the timeout reconfigured to 9000 the pass at 1500 stamps 9000 on both links. -/
 example : ((runSelect ({ exSys with cfg := { connTimeoutMs := 9000 } } : Sys Int) 1500).1.links.map
@@ -522,6 +540,16 @@ theorem C08_rejoin_invariant_step (s : Sys F) (e : Ev) (h : RejoinInv s) : Rejoi
       rw [this] at he; exact he
     obtain ⟨a, -⟩ := i2 he'
     exact ⟨hmono a, fun _ => ⟨f10.window, f10.log, f10.queue, f10.inFlight, f10.connected⟩⟩
+  | attemptFailed now _ _ _ _ hlA =>
+    obtain ⟨t, ht⟩ := hlA
+    subst ht
+    obtain ⟨-, -, f3, -, -, f6, -, -, f9⟩ := failedLink_fields l now
+    refine ⟨fun _ => f6, fun he => ?_⟩
+    have he' : l.established ≠ 0 := by
+      have : (withSent (failedLink l now) t).established = l.established := f3
+      rw [this] at he; exact he
+    obtain ⟨a, -⟩ := i2 he'
+    exact ⟨hmono a, fun _ => ⟨f9.window, f9.log, f9.queue, f9.inFlight, f9.connected⟩⟩
 
 /-- … hence it holds along every run (any events, any order, any length) from a start-up state. -/
 theorem C08_rejoin_invariant (s : Sys F) (es : List Ev) (h : RejoinInv s) : RejoinInv (run s es) := by
@@ -592,49 +620,82 @@ example :
     (reg3Link l0 500).core.window = 19900 ∧ (reg3Link l0 500).core.log = [] ∧
     (reg3Link l0 500).core.inFlight = 0 ∧ (reg3Link l0 500).established = 500 := by decide
 
-/-- Both tear-down paths leave the clean state, whatever the link held. -/
+/-- All tear-down paths leave the clean state, whatever the link held: `mark_for_recovery` (failed
+send, REG_ERR), the reconnect branch of housekeeping with a successful socket re-creation, and the
+same branch when the re-creation fails. -/
 theorem C08_teardown_is_clean (l : FLink F) (now : Nat) (t : Option Nat) :
     Clean l.markForRecovery ∧ l.markForRecovery.core.phase = .registering ∧
-    Clean (withSent (reconnectLink l now) t) ∧ (withSent (reconnectLink l now) t).core.phase = .registering := by
+    Clean (withSent (reconnectLink l now) t) ∧ (withSent (reconnectLink l now) t).core.phase = .registering ∧
+    Clean (withSent (failedLink l now) t) ∧ (withSent (failedLink l now) t).core.phase = .registering := by
   obtain ⟨-, -, -, -, -, f6, -, -, -, f10⟩ := reconnectLink_fields l now
-  exact ⟨clean_markForRecovery l, rfl, ⟨f10.window, f10.log, f10.queue, f10.inFlight, f10.connected⟩, f6⟩
+  obtain ⟨-, -, -, -, -, g6, -, -, g9⟩ := failedLink_fields l now
+  exact ⟨clean_markForRecovery l, rfl, ⟨f10.window, f10.log, f10.queue, f10.inFlight, f10.connected⟩, f6,
+    ⟨g9.window, g9.log, g9.queue, g9.inFlight, g9.connected⟩, g6⟩
 
 /-! ## 6. Survivors are unaffected -/
 
 /-- **Frame property of the per-link loop**: the record of link `j` after `hkLinksGo` is `hkLink` of
-that link's own record, its index and the pending-REG2 index — nothing else.  (The registration state
-threaded through the loop only changes by `build_reg1_for` on the pending link itself, which leaves
-`pending` as it was; so the dependence on "the registration state threaded so far" is a dependence
-on the loop-invariant `reg.pending`.) -/
+that link's own record, its index, the pending-REG2 index and whether a socket re-creation failure is
+injected for ITS conn id when the loop reaches it — nothing else.  (The registration state threaded
+through the loop only changes by `build_reg1_for` on the pending link itself, which leaves `pending`
+as it was; so the dependence on "the registration state threaded so far" is a dependence on the
+loop-invariant `reg.pending`.  The injection list `fb` is only ever consumed, by the attempt it
+fails: `hkBindLeft` over the links before `j`.) -/
 theorem C08_survivors_unaffected (classic : Bool) (now : Nat) (ls : List (FLink F)) (i : Nat) (reg : Reg.Reg)
-    (j : Nat) :
-    (hkLinksGo classic now ls i reg).1[j]? = (ls[j]?).map (hkLink classic now reg.pending (i + j)) ∧
-    (hkLinksGo classic now ls i reg).1.length = ls.length := by
-  rw [(hkLinksGo_links classic now ls i reg).1]
+    (fb : List Nat) (j : Nat) :
+    (hkLinksGo classic now ls i reg fb).1[j]? =
+      (ls[j]?).map (fun l => hkLink classic now reg.pending
+        ((hkBindLeft now (ls.take j) fb).contains l.core.connId) (i + j) l) ∧
+    (hkLinksGo classic now ls i reg fb).1.length = ls.length := by
+  rw [(hkLinksGo_links classic now ls i reg fb).1]
   exact ⟨List.getElem?_mapIdx, List.length_mapIdx⟩
 
-/-- Consequently two passes over link lists that agree at position `j` (and on the pending index)
-produce the same record at `j`, however the OTHER links differ — timed out, torn down, reconnecting
-or healthy. -/
+/-- Consequently two passes over link lists that agree at position `j` (and on the pending index, and
+on whether the re-creation of link `j`'s socket is made to fail) produce the same record at `j`,
+however the OTHER links differ — timed out, torn down, reconnecting with or without success, or
+healthy. -/
 theorem C08_survivors_unaffected_frame (classic : Bool) (now : Nat) (ls ls' : List (FLink F)) (i : Nat)
-    (reg reg' : Reg.Reg) (j : Nat) (hj : ls[j]? = ls'[j]?) (hp : reg.pending = reg'.pending) :
-    (hkLinksGo classic now ls i reg).1[j]? = (hkLinksGo classic now ls' i reg').1[j]? := by
-  rw [(C08_survivors_unaffected classic now ls i reg j).1, (C08_survivors_unaffected classic now ls' i reg' j).1,
-    hj, hp]
+    (reg reg' : Reg.Reg) (fb fb' : List Nat) (j : Nat) (hj : ls[j]? = ls'[j]?) (hp : reg.pending = reg'.pending)
+    (hf : ∀ l, ls[j]? = some l → (hkBindLeft now (ls.take j) fb).contains l.core.connId =
+      (hkBindLeft now (ls'.take j) fb').contains l.core.connId) :
+    (hkLinksGo classic now ls i reg fb).1[j]? = (hkLinksGo classic now ls' i reg' fb').1[j]? := by
+  rw [(C08_survivors_unaffected classic now ls i reg fb j).1, (C08_survivors_unaffected classic now ls' i reg' fb' j).1,
+    ← hj, hp]
+  cases h : ls[j]? with
+  | none => rfl
+  | some l => simp only [Option.map_some, hf l h]
+
+/-- In particular with no failure injected for link `j`'s conn id in either pass. -/
+theorem C08_survivors_unaffected_frame_noinject (classic : Bool) (now : Nat) (ls ls' : List (FLink F)) (i : Nat)
+    (reg reg' : Reg.Reg) (fb fb' : List Nat) (j : Nat) (hj : ls[j]? = ls'[j]?) (hp : reg.pending = reg'.pending)
+    (hf : ∀ l, ls[j]? = some l → l.core.connId ∉ fb ∧ l.core.connId ∉ fb') :
+    (hkLinksGo classic now ls i reg fb).1[j]? = (hkLinksGo classic now ls' i reg' fb').1[j]? := by
+  refine C08_survivors_unaffected_frame classic now ls ls' i reg reg' fb fb' j hj hp (fun l hl => ?_)
+  obtain ⟨h1, h2⟩ := hf l hl
+  have e1 : (hkBindLeft now (ls.take j) fb).contains l.core.connId = false := by
+    cases hc : (hkBindLeft now (ls.take j) fb).contains l.core.connId
+    · rfl
+    · exact absurd (hkBindLeft_mem now _ _ _ (by simpa using hc)) h1
+  have e2 : (hkBindLeft now (ls'.take j) fb').contains l.core.connId = false := by
+    cases hc : (hkBindLeft now (ls'.take j) fb').contains l.core.connId
+    · rfl
+    · exact absurd (hkBindLeft_mem now _ _ _ (by simpa using hc)) h2
+  rw [e1, e2]
 
 /-- Non-vacuity: the live link next to a link that is down, or next to one that is being
 reconnected in this very pass, comes out the same. -/
-example : (hkLinksGo false 7000 [exLive, exDown] 0 exSys.reg).1[0]? =
-    (hkLinksGo false 7000 [exLive, { exDown with lastAttemptMs := 6999 }] 0 exSys.reg).1[0]? :=
-  C08_survivors_unaffected_frame false 7000 _ _ 0 _ _ 0 rfl rfl
+example : (hkLinksGo false 7000 [exLive, exDown] 0 exSys.reg []).1[0]? =
+    (hkLinksGo false 7000 [exLive, { exDown with lastAttemptMs := 6999 }] 0 exSys.reg [7]).1[0]? :=
+  C08_survivors_unaffected_frame_noinject false 7000 _ _ 0 _ _ _ _ 0 rfl rfl
+    (fun l hl => by cases hl; exact ⟨by decide, by decide⟩)
 
 /-- A link that is NOT timed out at the tick keeps its batch queue, packet log, in-flight count,
 `connected` flag, `last_received`, conn id and establishment time through the pass (it only gets
 keepalives, window recovery, bitrate / phase / regime updates) — the surviving uplinks keep carrying
 the stream while others are being torn down in the same pass. -/
-theorem C08_survivor_keeps_carrying (classic : Bool) (now : Nat) (pending : Option Nat) (j : Nat) (l : FLink F)
-    (h : l.isTimedOut now = false) :
-    let l' := hkLink classic now pending j l
+theorem C08_survivor_keeps_carrying (classic : Bool) (now : Nat) (pending : Option Nat) (fails : Bool) (j : Nat)
+    (l : FLink F) (h : l.isTimedOut now = false) :
+    let l' := hkLink classic now pending fails j l
     l'.queue = l.queue ∧ l'.core.log = l.core.log ∧ l'.core.inFlight = l.core.inFlight ∧
     l'.core.connected = l.core.connected ∧ l'.core.connId = l.core.connId ∧
     l'.established = l.established ∧ l'.core.lastReceived = l.core.lastReceived := by
@@ -646,10 +707,10 @@ theorem C08_survivor_keeps_carrying (classic : Bool) (now : Nat) (pending : Opti
 /-- Non-vacuity: at the tick at 1500 the live link of `exSys` is not timed out; it keeps its two
 in-flight packets while the down link next to it is being retried. -/
 example : exLive.isTimedOut 1500 = false ∧
-    (hkLink false 1500 none 0 exLive).core.log = [(10, 900), (11, 950)] ∧
-    (hkLink false 1500 none 0 exLive).core.connected = true :=
-  ⟨by decide, (C08_survivor_keeps_carrying false 1500 none 0 exLive (by decide)).2.1,
-   (C08_survivor_keeps_carrying false 1500 none 0 exLive (by decide)).2.2.2.1⟩
+    (hkLink false 1500 none false 0 exLive).core.log = [(10, 900), (11, 950)] ∧
+    (hkLink false 1500 none false 0 exLive).core.connected = true :=
+  ⟨by decide, (C08_survivor_keeps_carrying false 1500 none false 0 exLive (by decide)).2.1,
+   (C08_survivor_keeps_carrying false 1500 none false 0 exLive (by decide)).2.2.2.1⟩
 
 /-- The same on the whole tick (`handle_housekeeping`): every link's record afterwards is `hkLink` of
 its own record (after stage 1's possible grace re-arm of the probed link), up to a `last_sent` stamp
@@ -658,12 +719,13 @@ theorem C08_survivors_unaffected_tick (s : Sys F) (now : Nat) :
     ∃ τ : Nat → Option Nat → Option Nat, ∀ j : Nat,
       (handleHousekeeping s now).1.links[j]? =
         (s.links[j]?).map (fun l =>
-          let x := hkLink s.cfg.classic now (hkP1 s now).1.pending j (graceFix (hkGraceIdx s now) now j l)
+          let x := hkLink s.cfg.classic now (hkP1 s now).1.pending (hkFails s now j l.core.connId) j
+            (graceFix (hkGraceIdx s now) now j l)
           withSent x (τ j x.core.lastSent)) := by
   obtain ⟨τ, h⟩ := hk_links s now
   exact ⟨τ, fun j => by rw [h, List.getElem?_mapIdx]⟩
 
-/-! ## 7. Liveness (partial) -/
+/-! ## 7. Liveness on the link's own projection (partial; the run-level form is section 9) -/
 
 /-- A tick that attempts a reconnect with no uplink awaiting REG2 puts a REG2 carrying the group id on
 the wire of that link (`handle_housekeeping`, whole tick). -/
@@ -679,7 +741,7 @@ theorem C08_attempt_sends_reg2 (s : Sys F) (now j : Nat) (l : FLink F) (hl : s.l
   have hls : (hkP1 s now).2 = s.links := by
     rw [hkP1_links, hkGraceIdx_none s now hprob]
     exact mapIdx_id' _ _ (fun j a => by simp [graceFix])
-  have := hkLinksGo_wire_reg2 s.cfg.classic now (hkP1 s now).2 0 (hkP1 s now).1 (r2 hpend) j l
+  have := hkLinksGo_wire_reg2 s.cfg.classic now (hkP1 s now).2 0 (hkP1 s now).1 s.failBind (r2 hpend) j l
     (by rw [hls]; exact hl) hto hsa
   unfold Reg.buildReg2 at this
   rw [r3] at this
@@ -721,11 +783,11 @@ theorem C08_aux_down_ready (l : FLink F) (h : Down l) (now : Nat) :
 
 /-- One housekeeping tick at `t` as link `j` sees it UNDER THE ENVIRONMENT HYPOTHESES of the liveness
 clause: no uplink is awaiting REG2 (`pending = none`: the group is alive on a survivor); socket
-re-creation succeeds (built into the model); if the tick re-sends REG2 for this link, the receiver's
+re-creation succeeds (no bind failure injected: `fails = false`); if the tick re-sends REG2 for this link, the receiver's
 REG3 answer is processed at `d`, before the next tick; no other datagram arrives on the link. -/
 def tickReply (classic : Bool) (j : Nat) (l : FLink F) (t d : Nat) : FLink F :=
-  if l.isTimedOut t && l.shouldAttemptReconnect t then reg3Link (hkLink classic t none j l) d
-  else hkLink classic t none j l
+  if l.isTimedOut t && l.shouldAttemptReconnect t then reg3Link (hkLink classic t none false j l) d
+  else hkLink classic t none false j l
 
 def liveRun (classic : Bool) (j : Nat) : FLink F → List (Nat × Nat) → FLink F
   | l, [] => l
@@ -760,6 +822,7 @@ theorem C08_aux_live (classic : Bool) (j : Nat) (l : FLink F) (hd : Down l) (t0 
       simp only [List.nil_append, liveRun, tickReply, hto, hsa, Bool.and_self, if_true]
       unfold hkLink
       rw [if_pos hto, if_pos hsa]
+      rfl
     · -- not yet: the record is unchanged, the next tick is < 1100 ms later
       have hsa : l.shouldAttemptReconnect t = false := by
         cases h : l.shouldAttemptReconnect t
@@ -798,14 +861,14 @@ the link re-sends REG2 and after whose REG3 the link is connected with clean acc
 in-flight 0, empty log/queue, `Warming{0, dk}`) — i.e. within 5000 + 1100 ms of the previous failed
 attempt plus the answer delay (< 1100 ms): far inside the 30 s of the property.
 
-What is NOT proved (why this is `_partial`): that in the full shell the ticks really come ≤ 1100 ms
-apart (tokio timers); the REG3 answer (receiver + network); socket re-creation (assumed successful in
-the model); the case where another uplink is awaiting REG2 (`pending = some p ≠ j`: the re-send is
-deferred until `clear_pending_if_timed_out`, ≤ 4000 ms) and the all-links-down REG1 → REG2 → REG3
-re-grouping chain; and the interleaving with other events is represented by the projection
-`tickReply` (other events leave `Down` and the reconnection fields of a `Registering` clean link
-untouched by `C08_attempt_stamp` / `C08_rejoin_invariant_step`, except datagrams arriving on the link
-itself, which refresh `last_received`). -/
+What is NOT proved here (why this one is `_partial`): this is the link's own PROJECTION of a run
+(`tickReply`); the lift to runs of the shell with arbitrary interleaved events — including datagrams
+arriving on the link itself — is `C08_reconnect_within_30s_sys` in section 9.  Outside both: that the
+ticks really come ≤ 1100 ms apart (tokio timers); the REG3 answer (receiver + network); a FAILED socket
+re-creation (modelled since round 3, `Ev.failBind`: outside the property's fault classes, with it the
+30 s clause does not hold — section 8); the case where another uplink is awaiting REG2 (`pending =
+some p ≠ j`: the re-send is deferred until `clear_pending_if_timed_out`, ≤ 4000 ms) and the
+all-links-down REG1 → REG2 → REG3 re-grouping chain. -/
 theorem C08_reconnect_within_30s_partial (classic : Bool) (j : Nat) (l : FLink F) (hd : Down l)
     (hcto : 0 < l.connTimeoutMs)
     (t0 d0 : Nat) (rest : List (Nat × Nat)) (hg : Gaps t0 rest)
@@ -850,5 +913,746 @@ example : Down exDownHeard ∧ 0 < exDownHeard.connTimeoutMs ∧
     (liveRun false 1 exDownHeard
       [(2500, 2600), (3600, 3700), (4700, 4800), (5800, 5900), (6900, 7000)]).core.connected = false := by
   refine ⟨⟨rfl, by decide, rfl⟩, by decide, by simp [Gaps], ⟨(8000, 8100), by simp, by decide⟩, by decide, by decide⟩
+
+/-! ## 8. Failed socket re-creations: the back-off table is reached, retries go on
+
+The reconnect branch of housekeeping calls `reconnect_uplink`, which re-creates the uplink's socket.
+If that fails (the uplink binder refuses: interface gone) the code falls back to `mark_for_recovery`:
+the failure counter `record_attempt` has just incremented is NOT reset, so the NEXT attempt waits for
+`backoff_delay` = 10, 20, 40, 80, 120, 120, … s.  The model injects such failures by the event
+`Ev.failBind connId` (the sys harness by a binder that refuses once).
+
+Failed socket re-creation is not among C08's fault classes (silence, loss, lost handshake replies,
+REG_NGP / REG_ERR, send errors): with it the "connected again within 30 s" clause does not hold — by
+design, this is what the property's "back-off never exceeding 120 s" is about.  The liveness theorem
+of section 9 therefore assumes no injected bind failure for the link; this section shows that the
+table is really reached and that retries continue. -/
+
+/-- The record a failed re-creation leaves, field by field: attempt stamp = tick time; failure counter
+one more than before (saturating at `u32::MAX`) once the link has been established, unchanged during
+initial registration; establishment time kept; start-up grace cleared (0); clean accounting, phase
+`Registering`, `last_received` cleared. -/
+theorem C08_failed_reconnect_link (l : FLink F) (now : Nat) (t : Option Nat) :
+    let l' := withSent (failedLink l now) t
+    l'.lastAttemptMs = now ∧
+    l'.failCount = (if l.established = 0 then l.failCount else min (l.failCount + 1) 4294967295) ∧
+    l'.established = l.established ∧ l'.graceDeadline = 0 ∧ l'.core.connId = l.core.connId ∧
+    l'.core.phase = .registering ∧ l'.core.lastReceived = none ∧ Clean l' := by
+  obtain ⟨f1, f2, f3, f4, f5, f6, f7, -, f9⟩ := failedLink_fields l now
+  exact ⟨f1, f2, f3, f4, f5, f6, f7, ⟨f9.window, f9.log, f9.queue, f9.inFlight, f9.connected⟩⟩
+
+/-- **After a failed re-creation the link keeps trying.**  `l'` is the record the failed attempt at
+tick `now` leaves (`now ≠ 0`: clock value 0 is the code's "never attempted" sentinel).  Then
+(1) `l'` is down-like: not connected, window 20000, empty log and queue, in-flight 0, `Registering`;
+(2) it is timed out — due for re-registration — at EVERY later instant (no grace: `mark_for_recovery`
+    zeroes the grace deadline), whatever it hears meanwhile;
+(3) once established, `should_attempt_reconnect` is false before and true from exactly `now +
+    backoff_delay` on, where `backoff_delay` is read off the INCREMENTED failure counter and lies in
+    5000 … 120000; during initial registration the cadence stays 1000 ms;
+(4) so a tick at or after `now + 120000` attempts again in every case: there is no failure count
+    that stops the retries. -/
+theorem C08_failed_reconnect_keeps_trying (l : FLink F) (now : Nat) (t : Option Nat) (hnow : now ≠ 0) :
+    let l' := withSent (failedLink l now) t
+    (l'.core.connected = false ∧ l'.core.window = 20000 ∧ l'.core.log = [] ∧ l'.queue = [] ∧
+      l'.core.inFlight = 0 ∧ l'.core.phase = .registering) ∧
+    (∀ now', l'.isTimedOut now' = true) ∧
+    (l.established ≠ 0 → 5000 ≤ l'.backoffDelay ∧ l'.backoffDelay ≤ 120000 ∧
+      ∀ now', l'.shouldAttemptReconnect now' = true ↔ now' - now ≥ l'.backoffDelay) ∧
+    (l.established = 0 → ∀ now', l'.shouldAttemptReconnect now' = true ↔ (0 < now' ∧ now' - now ≥ 1000)) ∧
+    (∀ now', now' - now ≥ 120000 → l'.shouldAttemptReconnect now' = true) := by
+  intro l'
+  obtain ⟨f1, f2, f3, f4, f5, f6, f7, f8⟩ := C08_failed_reconnect_link l now t
+  have hI := Lit.INITIAL_RETRY_MS_eq
+  have hla : (l'.lastAttemptMs == 0) = false := by
+    have : l'.lastAttemptMs = now := f1
+    rw [this]; simpa using hnow
+  have hto : ∀ now', l'.isTimedOut now' = true := by
+    intro now'
+    rw [C08_timed_out_disconnected l' now' f8.connected]
+    rintro ⟨-, h⟩
+    have : l'.graceDeadline = 0 := f4
+    omega
+  refine ⟨⟨f8.connected, f8.window, f8.log, f8.queue, f8.inFlight, f6⟩, hto, ?_, ?_, ?_⟩
+  · intro he
+    have he' : (l'.established == 0) = false := by
+      have : l'.established = l.established := f3
+      rw [this]; simpa using he
+    refine ⟨(backoff_bounds l').1, (backoff_bounds l').2, fun now' => ?_⟩
+    unfold FLink.shouldAttemptReconnect
+    simp only [he', hla, Bool.false_eq_true, if_false, decide_eq_true_eq]
+    have : l'.lastAttemptMs = now := f1
+    rw [this]
+  · intro he now'
+    have he' : (l'.established == 0) = true := by
+      have : l'.established = l.established := f3
+      rw [this]; simpa using he
+    unfold FLink.shouldAttemptReconnect
+    have h4 : l'.graceDeadline = 0 := f4
+    have h1 : l'.lastAttemptMs = now := f1
+    have hn0 : (now == 0) = false := by simpa using hnow
+    simp only [he', if_true, h4, h1, hn0, Bool.false_eq_true, if_false, Lit.INITIAL_RETRY_MS_eq]
+    by_cases h0 : now' ≤ 0
+    · simp only [h0, if_true]
+      constructor
+      · intro h; cases h
+      · intro h; omega
+    · simp only [h0, if_false, decide_eq_true_eq]
+      constructor
+      · intro h; exact ⟨by omega, by omega⟩
+      · intro h; omega
+  · intro now' hge
+    apply shouldAttempt_of_old l' now'
+    · by_cases he : l.established = 0
+      · right
+        have : l'.graceDeadline = 0 := f4
+        omega
+      · left
+        have : l'.established = l.established := f3
+        rw [this]; exact he
+    · right
+      have : l'.lastAttemptMs = now := f1
+      rw [this]; exact hge
+
+/-- Non-vacuity: `exDown` (established, counter 0) after a failed re-creation at 7000: counter 1, the
+next attempt is refused at 16999 and granted at 17000 = 7000 + 10000; with the counter at 4 before,
+the next one comes 120000 ms later (5 recorded failures: the cap). -/
+example :
+    (withSent (failedLink exDown 7000) (some 7000)).failCount = 1 ∧
+    (withSent (failedLink exDown 7000) (some 7000)).backoffDelay = 10000 ∧
+    (withSent (failedLink exDown 7000) (some 7000)).shouldAttemptReconnect 16999 = false ∧
+    (withSent (failedLink exDown 7000) (some 7000)).shouldAttemptReconnect 17000 = true ∧
+    (withSent (failedLink { exDown with failCount := 4 } 7000) none).shouldAttemptReconnect 126999 = false ∧
+    (withSent (failedLink { exDown with failCount := 4 } 7000) none).shouldAttemptReconnect 127000 = true := by
+  decide
+
+/-- In the shell: a tick in which link `j` is due while a bind failure is injected for its conn id
+(and for no earlier link with the same id) leaves the failed-attempt record — and still puts the REG2
+on the wire (old socket) when no uplink is awaiting REG2. -/
+theorem C08_failed_reconnect_in_tick (s : Sys F) (now j : Nat) (l : FLink F) (hl : s.links[j]? = some l)
+    (hto : l.isTimedOut now = true) (hsa : l.shouldAttemptReconnect now = true)
+    (hest : l.established ≠ 0) (hf : hkFails s now j l.core.connId = true) :
+    (∃ t, (step s (.hk now)).1.links[j]? = some (withSent (failedLink l now) t)) ∧
+    AttemptAt s (.hk now) j now ∧
+    (s.reg.pending = none → (l.core.connId, Codec.createReg2 s.reg.id) ∈ (step s (.hk now)).2.wire) := by
+  obtain ⟨t, ht⟩ := hk_attempts s now j l hl hto hsa (Or.inr hest)
+  have ht' : (step s (.hk now)).1.links[j]? = some (withSent (attemptLink true l now) t) := by
+    rw [← hf]; exact ht
+  exact ⟨⟨t, ht'⟩, ⟨rfl, l, hl, hto, hsa, t, true, ht'⟩, fun hp => hk_wire_reg2 s now j l hl hp hest hto hsa⟩
+
+/-- The observations of link `j` after every housekeeping tick of a run: tick time, failure counter,
+attempt stamp, and whether the tick returned the all-links-failed error. -/
+def tickTrace (j : Nat) : Sys F → List Ev → List (Nat × Nat × Nat × Bool)
+  | _, [] => []
+  | s, .hk now :: es =>
+    (match (step s (.hk now)).1.links[j]? with
+      | some l => [(now, l.failCount, l.lastAttemptMs, (step s (.hk now)).2.hkErr)]
+      | none => []) ++ tickTrace j (step s (.hk now)).1 es
+  | s, e :: es => tickTrace j (step s e).1 es
+
+/-- Start-up: two fresh uplinks (`new_registering` at clock 0), fresh registration manager. -/
+def exStart : Sys Int :=
+  { links := [FLink.newRegistering 7 0, FLink.newRegistering 8 0], reg := Reg.Reg.new [1] [2] }
+
+/-- One round of the literal run: the survivor (conn id 8) hears a keepalive 2 ms before, a bind
+failure is injected for conn id 7, a tick 1 ms before the back-off expires and a tick when it does. -/
+def exRound (t : Nat) : List Ev := [.uplink (t - 2) 8 [0x90, 0x00], .failBind 7, .hk (t - 1), .hk t]
+
+/-- The literal run: both links register (REG3 at 100), the receiver drops link 7 (REG_ERR at 200),
+then every reconnect attempt of link 7 meets a refusing binder — seven times — and the eighth
+re-creation succeeds and is answered by REG3. -/
+def exBackoffRun : List Ev :=
+  [.uplink 100 7 [0x92, 0x02], .uplink 100 8 [0x92, 0x02], .uplink 200 7 [0x92, 0x10],
+   .uplink 998 8 [0x90, 0x00], .failBind 7, .hk 1000] ++
+  exRound 11000 ++ exRound 31000 ++ exRound 71000 ++ exRound 151000 ++ exRound 271000 ++ exRound 391000 ++
+  [.uplink 510998 8 [0x90, 0x00], .hk 510999, .hk 511000, .uplink 511050 7 [0x92, 0x02]]
+
+/-- **The back-off table is reachable** (from START-UP, by events of the shell alone).  Along the
+literal run `exBackoffRun` the failure counter of link 0 climbs 1, 2, 3, 4, 5, 6, 7 and the attempts
+are stamped 1000, 11000, 31000, 71000, 151000, 271000, 391000: the gaps are 10000, 20000, 40000,
+80000, 120000, 120000 ms — the table, capped — and exactly so: the tick 1 ms before each of them is
+refused (same counter, same stamp as before).  The tick at 511000 (120000 ms after the seventh
+failure) re-creates the socket, which zeroes the counter; the REG3 at 511050 re-joins the link with
+window 20000 and in-flight 0.  No tick returns the all-links-failed error (link 1 survives), and all
+seven injected failures are consumed. -/
+theorem C08_backoff_reachable :
+    tickTrace 0 exStart exBackoffRun =
+      [(1000, 1, 1000, false),
+       (10999, 1, 1000, false), (11000, 2, 11000, false),
+       (30999, 2, 11000, false), (31000, 3, 31000, false),
+       (70999, 3, 31000, false), (71000, 4, 71000, false),
+       (150999, 4, 71000, false), (151000, 5, 151000, false),
+       (270999, 5, 151000, false), (271000, 6, 271000, false),
+       (390999, 6, 271000, false), (391000, 7, 391000, false),
+       (510999, 7, 391000, false), (511000, 0, 511000, false)] ∧
+    ((run exStart exBackoffRun).links.map fun l =>
+      (l.core.connected, l.core.window, l.core.inFlight, l.failCount)) =
+      [(true, 20000, 0, 0), (true, 20420, 0, 0)] ∧
+    (run exStart exBackoffRun).failBind = [] := by
+  decide +kernel
+
+/-- Recognising an attempt of an established link from the state the tick starts in. -/
+theorem C08_aux_attemptAt_of (s : Sys F) (now j : Nat)
+    (h : (s.links[j]?.map fun l => l.isTimedOut now && l.shouldAttemptReconnect now && decide (l.established ≠ 0))
+      = some true) : AttemptAt s (.hk now) j now := by
+  cases hl : s.links[j]? with
+  | none => rw [hl] at h; cases h
+  | some l =>
+    rw [hl] at h
+    simp only [Option.map_some, Option.some.injEq, Bool.and_eq_true, decide_eq_true_eq] at h
+    obtain ⟨⟨hto, hsa⟩, hest⟩ := h
+    obtain ⟨t, ht⟩ := hk_attempts s now j l hl hto hsa (Or.inr hest)
+    exact ⟨rfl, l, hl, hto, hsa, t, _, ht⟩
+
+/-- … and a refused tick. -/
+theorem C08_aux_not_attemptAt_of (s : Sys F) (now j : Nat)
+    (h : (s.links[j]?.map fun l => l.shouldAttemptReconnect now) = some false) (now' : Nat) :
+    ¬ AttemptAt s (.hk now) j now' := by
+  rintro ⟨he, l, hl, -, hsa, -⟩
+  rw [hl] at h
+  simp only [Option.map_some, Option.some.injEq] at h
+  have he' : now = now' := by injection he
+  rw [← he', h] at hsa; cases hsa
+
+/-- The state of the literal run just before the tick at 11000. -/
+def exS1 : Sys Int :=
+  run exStart
+    [.uplink 100 7 [0x92, 0x02], .uplink 100 8 [0x92, 0x02], .uplink 200 7 [0x92, 0x10],
+     .uplink 998 8 [0x90, 0x00], .failBind 7, .hk 1000, .uplink 10998 8 [0x90, 0x00], .failBind 7, .hk 10999]
+
+/-- The extended alphabet in the trace theorems of sections 2 and 4: in the literal run the attempt at
+11000 (failed re-creation, after the injection event `failBind 7` and a refused tick) and the next one
+at 31000 are consecutive attempts of link 0 in the sense of `C08_retry_spacing_trace`, with an uplink
+datagram, an injection event and a refused tick in between — the theorem's conclusion "≥ 5000 apart"
+applies (here the gap is the 20000 ms back-off). -/
+example :
+    ∃ l, (run (step exS1 (.hk 11000)).1 [.uplink 30998 8 [0x90, 0x00], .failBind 7, .hk 30999]).links[0]? = some l ∧
+      l.lastAttemptMs = 11000 ∧
+      (11000 = 0 ∨ (l.established = 0 ∧ 31000 - 11000 ≥ 1000) ∨ (l.established ≠ 0 ∧ 31000 - 11000 ≥ 5000)) := by
+  have h1 : AttemptAt exS1 (.hk 11000) 0 11000 := C08_aux_attemptAt_of _ _ _ (by decide +kernel)
+  have hq : Quiet 0 (step exS1 (.hk 11000)).1 [.uplink 30998 8 [0x90, 0x00], .failBind 7, .hk 30999] := by
+    refine ⟨?_, ?_, ?_, trivial⟩
+    · rintro now ⟨he, -⟩; cases he
+    · rintro now ⟨he, -⟩; cases he
+    · exact C08_aux_not_attemptAt_of _ 30999 0 (by decide +kernel)
+  have h2 : AttemptAt (run (step exS1 (.hk 11000)).1 [.uplink 30998 8 [0x90, 0x00], .failBind 7, .hk 30999])
+      (.hk 31000) 0 31000 := C08_aux_attemptAt_of _ _ _ (by decide +kernel)
+  exact C08_retry_spacing_trace exS1 0 11000 31000 _ h1 hq h2
+
+/-! ## 9. Liveness over runs of the shell
+
+The liveness clause lifted from the per-link projection of section 7 (`tickReply`, `liveRun`) to runs
+`evs : List Ev` of the real shell model `Sys.step`, with ARBITRARY other events interleaved: client
+datagrams, uplink datagrams on any link — link `j` itself included (a straggler refreshing
+`last_received` no longer postpones anything: a torn-down, previously established link is always
+timed out, `C08_timed_out_disconnected`) —, flush ticks, configuration changes, critical windows,
+injected send failures, injected bind failures for OTHER conn ids. -/
+
+/-- The clock value an event carries (`none`: configuration and injection events). -/
+def evClock : Ev → Option Nat
+  | .client now _ => some now
+  | .uplink now _ _ => some now
+  | .flush now => some now
+  | .hk now => some now
+  | _ => none
+
+/-- Event clocks never go back (`lo` = the latest clock value so far): every arm of the event loop is
+stamped with the monotonic `now_ms()`. -/
+def MonoFrom : Nat → List Ev → Prop
+  | _, [] => True
+  | lo, e :: es =>
+    match evClock e with
+    | some t => lo ≤ t ∧ MonoFrom t es
+    | none => MonoFrom lo es
+
+/-- (i) Consecutive housekeeping ticks are at most 1100 ms apart (`pt` = the previous tick; period
+1 s + scheduling slack). -/
+def TickGaps : Nat → List Ev → Prop
+  | _, [] => True
+  | pt, .hk t :: es => t ≤ pt + 1100 ∧ TickGaps t es
+  | pt, _ :: es => TickGaps pt es
+
+/-- `e` is an uplink datagram of type REG3 (0x9202 = 37378) for conn id `cid`. -/
+def isReg3For (cid : Nat) : Ev → Bool
+  | .uplink _ c data => c == cid && Codec.getPacketTypeS data == some 37378
+  | _ => false
+
+/-- Before the next housekeeping tick a REG3 for conn id `cid` is processed, and the first such is
+processed at a clock value `≤ dl`. -/
+def AnswerBy (cid dl : Nat) : List Ev → Prop
+  | [] => False
+  | .hk _ :: _ => False
+  | .uplink d c data :: es =>
+    if isReg3For cid (.uplink d c data) then d ≤ dl else AnswerBy cid dl es
+  | _ :: es => AnswerBy cid dl es
+
+/-- (ii) The receiver answers: every tick (at `t`) whose wire output contains a REG2 (0x9201 = 37377)
+for conn id `cid` is followed, before the next tick and within 1100 ms, by an uplink REG3 for `cid`. -/
+def Answered (cid : Nat) : Sys F → List Ev → Prop
+  | _, [] => True
+  | s, e :: es =>
+    (∀ t, e = .hk t → (∃ p ∈ (step s e).2.wire, p.1 = cid ∧ Codec.getPacketTypeS p.2 = some 37377) →
+      AnswerBy cid (t + 1100) es) ∧
+    Answered cid (step s e).1 es
+
+/-- No uplink is awaiting REG2 when a tick starts (the group is alive on a survivor; otherwise the
+re-send for link `j` is deferred, `C08_reconnect_within_30s_partial`'s docstring). -/
+def NoPendingAtTicks : Sys F → List Ev → Prop
+  | _, [] => True
+  | s, e :: es => (∀ t, e = .hk t → s.reg.pending = none) ∧ NoPendingAtTicks (step s e).1 es
+
+/-- What the walk along the run maintains about link `j` (conn id `cid`) until it re-joins. -/
+structure LiveInv (cid j : Nat) (s : Sys F) (l : FLink F) : Prop where
+  link : s.links[j]? = some l
+  down : Down l
+  id : l.core.connId = cid
+  inv : RejoinInv s
+  idx : s.links.findIdx? (·.core.connId == cid) = some j
+  nofb : cid ∉ s.failBind
+
+theorem C08_aux_type_nonempty (data : Sys.Bytes) (t : Nat) (h : Codec.getPacketTypeS data = some t) :
+    data.isEmpty = false := by
+  cases data with
+  | nil => simp [Codec.getPacketTypeS] at h
+  | cons a r => rfl
+
+/-- One event from a `LiveInv` state, unless it injects a bind failure for `cid`: link `j` is still
+down with the invariant intact — its attempt stamp unchanged, or the event was a tick at which a
+reconnect attempt was due —, or the event was a REG3 for `cid`, which leaves `reg3Link`. -/
+theorem C08_aux_liveInv_step (cid j : Nat) (s : Sys F) (l : FLink F) (e : Ev) (h : LiveInv cid j s l)
+    (he : e ≠ .failBind cid) :
+    ∃ l1, (step s e).1.links[j]? = some l1 ∧
+      ((LiveInv cid j (step s e).1 l1 ∧
+          (l1.lastAttemptMs = l.lastAttemptMs ∨ ∃ now, e = .hk now ∧ l.shouldAttemptReconnect now = true)) ∨
+       (∃ now data, e = .uplink now cid data ∧ Codec.getPacketTypeS data = some 37378 ∧ l1 = reg3Link l now)) := by
+  obtain ⟨l1, hl1, hs⟩ := (step_link s e).1 j l h.link
+  refine ⟨l1, hl1, ?_⟩
+  have hnofb : cid ∉ (step s e).1.failBind := by
+    intro hm
+    rcases step_failBind_mem s e cid hm with h1 | h1
+    · exact h.nofb h1
+    · exact he h1
+  have hidx : (step s e).1.links.findIdx? (·.core.connId == cid) = some j := by
+    rw [step_findIdx]; exact h.idx
+  have hinv := C08_rejoin_invariant_step s e h.inv
+  obtain ⟨d1, d2, d3⟩ := h.down
+  have mk : l1.core.connected = false → l1.established = l.established → l1.failCount = l.failCount →
+      l1.core.connId = l.core.connId → LiveInv cid j (step s e).1 l1 :=
+    fun a b c d => ⟨hl1, ⟨a, by rw [b]; exact d2, by rw [c]; exact d3⟩, d.trans h.id, hinv, hidx, hnofb⟩
+  cases hs with
+  | evolves cto _ hev =>
+    exact Or.inl ⟨mk (hev.connected.trans d1) hev.established hev.failCount hev.connId, Or.inl hev.lastAttempt⟩
+  | sendFail now pkt _ ht _ =>
+    exact Or.inl ⟨mk ht.clean.connected ht.established ht.failCount ht.connId, Or.inl ht.lastAttempt⟩
+  | reg3 now c data hev hidx' hty hl3 _ =>
+    right
+    have hc : c = cid := by
+      have := findIdx_hit s.links c j l hidx' h.link
+      rw [← this]; exact h.id
+    subst hc
+    exact ⟨now, data, hev, (regEvent_of_type s.reg j data now).2.mp hty, hl3⟩
+  | regErr now c data _ _ _ hlE =>
+    subst hlE
+    exact Or.inl ⟨mk rfl rfl rfl rfl, Or.inl rfl⟩
+  | attempt now hev hto hsa hlA =>
+    obtain ⟨t, ht⟩ := hlA
+    obtain ⟨-, f2, f3, -, f5, -, -, -, -, f10⟩ := reconnectLink_fields l now
+    subst ht
+    exact Or.inl ⟨mk f10.connected f3 (f2.trans d3.symm) f5, Or.inr ⟨now, hev, hsa⟩⟩
+  | attemptFailed now _ _ _ hfb _ =>
+    rw [h.id] at hfb
+    exact absurd hfb h.nofb
+
+/-- A REG3 for `cid` processed in a `LiveInv` state re-joins link `j` cleanly. -/
+theorem C08_aux_rejoin (cid j : Nat) (s : Sys F) (l : FLink F) (h : LiveInv cid j s l) (d : Nat)
+    (data : Sys.Bytes) (hty : Codec.getPacketTypeS data = some 37378) :
+    ∃ l', (step s (.uplink d cid data)).1.links[j]? = some l' ∧
+      l'.core.connected = true ∧ l'.core.window = 20000 ∧ l'.core.inFlight = 0 ∧ l'.core.log = [] ∧
+      l'.queue = [] ∧ l'.core.phase = .warming 0 d := by
+  obtain ⟨d1, d2, -⟩ := h.down
+  obtain ⟨i1, i2⟩ := h.inv j l h.link
+  have hcl : Clean l := (i2 d2).2 (i1 d1)
+  obtain ⟨h1, -⟩ := C08_reg3_applies s d cid data j l h.link h.idx (C08_aux_type_nonempty data _ hty) hty
+  obtain ⟨r1, r2, r3, r4, r5, -, -, -, -, r10⟩ := C08_reg3_link l d
+  exact ⟨_, h1, r1, r10.trans hcl.window, r3, r4, r5, r2⟩
+
+/-- The answer phase: from a `LiveInv` state, if a REG3 for `cid` comes before the next tick (the
+first one by `dl`), then at the first such event link `j` re-joins. -/
+theorem C08_aux_answer_sys (cid j dl : Nat) (evs : List Ev) :
+    ∀ (s : Sys F) (l : FLink F), LiveInv cid j s l → (∀ e ∈ evs, e ≠ .failBind cid) → AnswerBy cid dl evs →
+      ∃ pre d data post, evs = pre ++ .uplink d cid data :: post ∧
+        Codec.getPacketTypeS data = some 37378 ∧ d ≤ dl ∧
+        ∃ l', (run s (pre ++ [.uplink d cid data])).links[j]? = some l' ∧
+          l'.core.connected = true ∧ l'.core.window = 20000 ∧ l'.core.inFlight = 0 ∧ l'.core.log = [] ∧
+          l'.queue = [] ∧ l'.core.phase = .warming 0 d := by
+  induction evs with
+  | nil => intro s l _ _ ha; exact absurd ha (by simp [AnswerBy])
+  | cons e es ih =>
+    intro s l hinv hne ha
+    have hne' : ∀ e' ∈ es, e' ≠ .failBind cid := fun e' he' => hne e' (List.mem_cons_of_mem _ he')
+    -- the event is the REG3 for `cid`, or it leaves the invariant intact
+    by_cases hr : isReg3For cid e = true
+    · cases e with
+      | uplink d c data =>
+        simp only [isReg3For, Bool.and_eq_true, beq_iff_eq] at hr
+        obtain ⟨hc, hty⟩ := hr
+        subst hc
+        have hd : d ≤ dl := by
+          have : isReg3For c (.uplink d c data) = true := by simp [isReg3For, hty]
+          simp only [AnswerBy, this, if_true] at ha
+          exact ha
+        obtain ⟨l', hl', hp⟩ := C08_aux_rejoin c j s l hinv d data hty
+        exact ⟨[], d, data, es, rfl, hty, hd, l', hl', hp⟩
+      | _ => simp [isReg3For] at hr
+    · have hr' : isReg3For cid e = false := by simpa using hr
+      have ha' : AnswerBy cid dl es := by
+        cases e with
+        | hk t => simp [AnswerBy] at ha
+        | uplink d c data => simpa only [AnswerBy, hr', Bool.false_eq_true, if_false] using ha
+        | client now pkt => simpa only [AnswerBy] using ha
+        | flush now => simpa only [AnswerBy] using ha
+        | setCfg cfg => simpa only [AnswerBy] using ha
+        | crit d => simpa only [AnswerBy] using ha
+        | failNext c => simpa only [AnswerBy] using ha
+        | failBind c => simpa only [AnswerBy] using ha
+      obtain ⟨l1, hl1, hc⟩ := C08_aux_liveInv_step cid j s l e hinv (hne e (List.mem_cons_self))
+      rcases hc with ⟨hinv1, -⟩ | ⟨now, data, he, hty, -⟩
+      · obtain ⟨pre, d, data, post, e1, e2, e3, l', hl', hp⟩ := ih _ l1 hinv1 hne' ha'
+        exact ⟨e :: pre, d, data, post, by rw [e1]; rfl, e2, e3, l', hl', hp⟩
+      · rw [he] at hr'
+        simp [isReg3For, hty] at hr'
+
+/-- An event before the next tick cannot carry a clock value beyond `pt + 1100`. -/
+theorem C08_aux_clock_before_tick (d pt : Nat) (es : List Ev) (hm : MonoFrom d es) (hg : TickGaps pt es)
+    (hex : ∃ t, Ev.hk t ∈ es) : d ≤ pt + 1100 := by
+  induction es generalizing d with
+  | nil => obtain ⟨t, ht⟩ := hex; cases ht
+  | cons e es ih =>
+    cases e with
+    | hk t =>
+      simp only [MonoFrom, evClock, TickGaps] at hm hg
+      omega
+    | client now pkt =>
+      simp only [MonoFrom, evClock, TickGaps] at hm hg
+      have := ih now hm.2 hg (by obtain ⟨t, ht⟩ := hex; exact ⟨t, by simpa using ht⟩)
+      omega
+    | uplink now c data =>
+      simp only [MonoFrom, evClock, TickGaps] at hm hg
+      have := ih now hm.2 hg (by obtain ⟨t, ht⟩ := hex; exact ⟨t, by simpa using ht⟩)
+      omega
+    | flush now =>
+      simp only [MonoFrom, evClock, TickGaps] at hm hg
+      have := ih now hm.2 hg (by obtain ⟨t, ht⟩ := hex; exact ⟨t, by simpa using ht⟩)
+      omega
+    | setCfg cfg =>
+      simp only [MonoFrom, evClock, TickGaps] at hm hg
+      exact ih d hm hg (by obtain ⟨t, ht⟩ := hex; exact ⟨t, by simpa using ht⟩)
+    | crit x =>
+      simp only [MonoFrom, evClock, TickGaps] at hm hg
+      exact ih d hm hg (by obtain ⟨t, ht⟩ := hex; exact ⟨t, by simpa using ht⟩)
+    | failNext c =>
+      simp only [MonoFrom, evClock, TickGaps] at hm hg
+      exact ih d hm hg (by obtain ⟨t, ht⟩ := hex; exact ⟨t, by simpa using ht⟩)
+    | failBind c =>
+      simp only [MonoFrom, evClock, TickGaps] at hm hg
+      exact ih d hm hg (by obtain ⟨t, ht⟩ := hex; exact ⟨t, by simpa using ht⟩)
+
+theorem C08_aux_reg2_type (id : Codec.Bytes) : Codec.getPacketTypeS (Codec.createReg2 id) = some 37377 := by
+  simp [Codec.createReg2, Codec.toBE16, Codec.getPacketTypeS, Codec.be16]
+
+/-- The walk: from a `LiveInv` state, along a run with monotone clocks, tick gaps ≤ 1100 ms (`pt` = the
+previous tick, `lo` = the latest clock), ticks going on until the back-off has expired, answered REG2s
+and no pending REG2 wait at ticks — link `j` re-joins at a REG3 processed before `last_attempt + 5000
++ 1100 + 1100` (or, if the walk starts with the back-off already expired, within two tick periods of
+the reference time `T0`). -/
+theorem C08_aux_live_sys (cid j T0 : Nat) (evs : List Ev) :
+    ∀ (s : Sys F) (l : FLink F) (pt lo : Nat), LiveInv cid j s l → (∀ e ∈ evs, e ≠ .failBind cid) →
+      MonoFrom lo evs → TickGaps pt evs → (pt < l.lastAttemptMs + 5000 ∨ pt ≤ T0) →
+      (∃ t, Ev.hk t ∈ evs ∧ t ≥ l.lastAttemptMs + 5000) →
+      Answered cid s evs → NoPendingAtTicks s evs →
+      ∃ pre d data post, evs = pre ++ .uplink d cid data :: post ∧
+        Codec.getPacketTypeS data = some 37378 ∧
+        (d < l.lastAttemptMs + 5000 + 1100 + 1100 ∨ d ≤ T0 + 1100 + 1100) ∧
+        ∃ l', (run s (pre ++ [.uplink d cid data])).links[j]? = some l' ∧
+          l'.core.connected = true ∧ l'.core.window = 20000 ∧ l'.core.inFlight = 0 ∧ l'.core.log = [] ∧
+          l'.queue = [] ∧ l'.core.phase = .warming 0 d := by
+  induction evs with
+  | nil => intro s l pt lo _ _ _ _ _ hex; obtain ⟨t, ht, -⟩ := hex; cases ht
+  | cons e es ih =>
+    intro s l pt lo hinv hne hm hg hpt hex hans hpend
+    have hne' : ∀ e' ∈ es, e' ≠ .failBind cid := fun e' he' => hne e' (List.mem_cons_of_mem _ he')
+    obtain ⟨hans0, hans'⟩ := hans
+    obtain ⟨hpend0, hpend'⟩ := hpend
+    obtain ⟨l1, hl1, hc⟩ := C08_aux_liveInv_step cid j s l e hinv (hne e (List.mem_cons_self))
+    -- a tick in `es` (needed when the event itself is not the long tick)
+    have hex_tail : (∀ t, e = .hk t → t < l.lastAttemptMs + 5000) →
+        ∃ t, Ev.hk t ∈ es ∧ t ≥ l.lastAttemptMs + 5000 := by
+      intro hnot
+      obtain ⟨t, ht, hge⟩ := hex
+      rcases List.mem_cons.1 ht with h0 | h0
+      · have := hnot t h0.symm; omega
+      · exact ⟨t, h0, hge⟩
+    by_cases htick : ∃ t, e = .hk t
+    · obtain ⟨t, rfl⟩ := htick
+      simp only [MonoFrom, evClock, TickGaps] at hm hg
+      have hto := C08_aux_down_timed_out l hinv.down t
+      by_cases hsa : l.shouldAttemptReconnect t = true
+      · -- the attempt tick: REG2 on the wire, answered; link `j` stays in the invariant until the REG3
+        have hready := (C08_aux_down_ready l hinv.down t).1 hsa
+        have hinv1 : LiveInv cid j (step s (.hk t)).1 l1 := by
+          rcases hc with ⟨h1, -⟩ | ⟨now, data, he, -⟩
+          · exact h1
+          · cases he
+        have hwire : (cid, Codec.createReg2 s.reg.id) ∈ (step s (.hk t)).2.wire := by
+          have := hk_wire_reg2 s t j l hinv.link (hpend0 t rfl) hinv.down.2.1 hto hsa
+          rw [hinv.id] at this; exact this
+        have hab : AnswerBy cid (t + 1100) es :=
+          hans0 t rfl ⟨_, hwire, rfl, C08_aux_reg2_type _⟩
+        obtain ⟨pre, d, data, post, e1, e2, e3, l', hl', hp⟩ :=
+          C08_aux_answer_sys cid j (t + 1100) es _ l1 hinv1 hne' hab
+        refine ⟨.hk t :: pre, d, data, post, by rw [e1]; rfl, e2, ?_, l', hl', hp⟩
+        omega
+      · -- not due yet: `t < last_attempt + 5000`; nothing happens to link `j`
+        have hsa' : ¬ (l.lastAttemptMs = 0 ∨ t - l.lastAttemptMs ≥ 5000) :=
+          fun hr => hsa ((C08_aux_down_ready l hinv.down t).2 hr)
+        have hlt : t < l.lastAttemptMs + 5000 := by omega
+        rcases hc with ⟨hinv1, hla | ⟨now, he, hsa2⟩⟩ | ⟨now, data, he, -⟩
+        · obtain ⟨pre, d, data, post, e1, e2, e3, l', hl', hp⟩ :=
+            ih _ l1 t t hinv1 hne' hm.2 hg.2 (Or.inl (by rw [hla]; exact hlt))
+              (by rw [hla]; exact hex_tail (fun t' ht' => by cases ht'; exact hlt)) hans' hpend'
+          rw [hla] at e3
+          exact ⟨.hk t :: pre, d, data, post, by rw [e1]; rfl, e2, e3, l', hl', hp⟩
+        · cases he; exact absurd hsa2 hsa
+        · cases he
+    · -- not a tick
+      have hnt : ∀ t, e ≠ .hk t := fun t h => htick ⟨t, h⟩
+      have hex' := hex_tail (fun t h => absurd h (hnt t))
+      have hg' : TickGaps pt es := by
+        cases e with
+        | hk t => exact absurd rfl (hnt t)
+        | _ => simpa only [TickGaps] using hg
+      rcases hc with ⟨hinv1, hla | ⟨now, he, -⟩⟩ | ⟨now, data, he, hty, -⟩
+      · have hm' : ∃ lo', MonoFrom lo' es := by
+          cases e with
+          | hk t => exact absurd rfl (hnt t)
+          | client now pkt => simp only [MonoFrom, evClock] at hm; exact ⟨_, hm.2⟩
+          | uplink now c data => simp only [MonoFrom, evClock] at hm; exact ⟨_, hm.2⟩
+          | flush now => simp only [MonoFrom, evClock] at hm; exact ⟨_, hm.2⟩
+          | setCfg cfg => simp only [MonoFrom, evClock] at hm; exact ⟨_, hm⟩
+          | crit x => simp only [MonoFrom, evClock] at hm; exact ⟨_, hm⟩
+          | failNext c => simp only [MonoFrom, evClock] at hm; exact ⟨_, hm⟩
+          | failBind c => simp only [MonoFrom, evClock] at hm; exact ⟨_, hm⟩
+        obtain ⟨lo', hm'⟩ := hm'
+        obtain ⟨pre, d, data, post, e1, e2, e3, l', hl', hp⟩ :=
+          ih _ l1 pt lo' hinv1 hne' hm' hg' (by rw [hla]; exact hpt) (by rw [hla]; exact hex') hans' hpend'
+        rw [hla] at e3
+        exact ⟨e :: pre, d, data, post, by rw [e1]; rfl, e2, e3, l', hl', hp⟩
+      · exact absurd he (hnt now)
+      · -- a REG3 for `cid` before the attempt (e.g. answering a REG2 broadcast): the link re-joins here
+        subst he
+        simp only [MonoFrom, evClock] at hm
+        obtain ⟨t', ht', -⟩ := hex'
+        have hd := C08_aux_clock_before_tick now pt es hm.2 hg' ⟨t', ht'⟩
+        obtain ⟨l', hl', hp⟩ := C08_aux_rejoin cid j s l hinv now data hty
+        refine ⟨[], now, data, es, rfl, hty, ?_, l', hl', hp⟩
+        omega
+
+/-- **Connected again (run level).**  State `s` of the shell, link `j` with record `l`:
+* `l` is down — not connected, established before, failure counter 0 (what every tear-down cause of the
+  property leaves) — and the state satisfies the rejoin invariant (every state reachable from start-up
+  does, `C08_rejoin_invariant`); uplink datagrams for `l`'s conn id are dispatched to index `j` (conn ids
+  are unique in the program);
+* `evs` is ANY run of the shell in which (i) event clocks never go back and housekeeping ticks are at
+  most 1100 ms apart (first tick at most 1100 ms after the reference time `t0`) and go on until the
+  back-off has expired (some tick at or after `last_attempt + 5000`); (ii) every tick whose wire output
+  contains a REG2 for this conn id is answered by a REG3 for it before the next tick and within
+  1100 ms; (iii) no bind failure is injected for this conn id (`failBind`, not pending and not in the
+  run: failed socket re-creation is outside the property's fault classes, section 8); (iv) no uplink is
+  awaiting REG2 when a tick starts.  Everything else is arbitrary: client datagrams, uplink datagrams
+  of every type on every link including `j`, flush ticks, configuration changes, critical windows,
+  injected send failures, injected bind failures for other conn ids, in any interleaving.
+
+Then the run has a prefix ending in a REG3 for this conn id, processed at clock `d`, after which link
+`j` is connected with window 20000, in-flight 0, empty packet log and batch queue, phase
+`Warming{0, d}`; and `d < last_attempt + 5000 + 1100 + 1100` — or `d ≤ t0 + 1100 + 1100` when the
+back-off had already expired at the reference time.  (Both far inside the property's 30 s.) -/
+theorem C08_reconnect_within_30s_sys (s : Sys F) (j : Nat) (l : FLink F) (evs : List Ev) (t0 : Nat)
+    (hl : s.links[j]? = some l) (hd : Down l) (hinv : RejoinInv s)
+    (hidx : s.links.findIdx? (·.core.connId == l.core.connId) = some j)
+    (hmono : MonoFrom t0 evs) (hgaps : TickGaps t0 evs)
+    (hlong : ∃ t, Ev.hk t ∈ evs ∧ t ≥ l.lastAttemptMs + 5000)
+    (hans : Answered l.core.connId s evs)
+    (hfb : l.core.connId ∉ s.failBind) (hnofb : ∀ e ∈ evs, e ≠ .failBind l.core.connId)
+    (hpend : NoPendingAtTicks s evs) :
+    ∃ pre d data post, evs = pre ++ .uplink d l.core.connId data :: post ∧
+      Codec.getPacketTypeS data = some 37378 ∧
+      (d < l.lastAttemptMs + 5000 + 1100 + 1100 ∨ d ≤ t0 + 1100 + 1100) ∧
+      ∃ l', (run s (pre ++ [.uplink d l.core.connId data])).links[j]? = some l' ∧
+        l'.core.connected = true ∧ l'.core.window = 20000 ∧ l'.core.inFlight = 0 ∧ l'.core.log = [] ∧
+        l'.queue = [] ∧ l'.core.phase = .warming 0 d :=
+  C08_aux_live_sys l.core.connId j t0 evs s l t0 t0 ⟨hl, hd, rfl, hinv, hidx, hfb⟩ hnofb hmono hgaps
+    (Or.inr (Nat.le_refl _)) hlong hans hpend
+
+/-- The bound in the property's terms: when the watch starts before the back-off has expired
+(`t0 ≤ last_attempt + 5000`), the link is connected again less than 5000 + 1100 + 1100 ms after the
+previous attempt — inside the 30 s. -/
+theorem C08_reconnect_within_30s_sys_bound (s : Sys F) (j : Nat) (l : FLink F) (evs : List Ev) (t0 : Nat)
+    (hl : s.links[j]? = some l) (hd : Down l) (hinv : RejoinInv s)
+    (hidx : s.links.findIdx? (·.core.connId == l.core.connId) = some j)
+    (hmono : MonoFrom t0 evs) (hgaps : TickGaps t0 evs) (ht0 : t0 < l.lastAttemptMs + 5000)
+    (hlong : ∃ t, Ev.hk t ∈ evs ∧ t ≥ l.lastAttemptMs + 5000)
+    (hans : Answered l.core.connId s evs)
+    (hfb : l.core.connId ∉ s.failBind) (hnofb : ∀ e ∈ evs, e ≠ .failBind l.core.connId)
+    (hpend : NoPendingAtTicks s evs) :
+    ∃ pre d data post, evs = pre ++ .uplink d l.core.connId data :: post ∧
+      d < l.lastAttemptMs + 5000 + 1100 + 1100 ∧ d < l.lastAttemptMs + 30000 ∧
+      ∃ l', (run s (pre ++ [.uplink d l.core.connId data])).links[j]? = some l' ∧
+        l'.core.connected = true ∧ l'.core.window = 20000 ∧ l'.core.inFlight = 0 ∧ l'.core.log = [] ∧
+        l'.queue = [] ∧ l'.core.phase = .warming 0 d := by
+  obtain ⟨pre, d, data, post, e1, -, e3, hp⟩ :=
+    C08_reconnect_within_30s_sys s j l evs t0 hl hd hinv hidx hmono hgaps hlong hans hfb hnofb hpend
+  exact ⟨pre, d, data, post, e1, by omega, by omega, hp⟩
+
+/-- Hypothesis (iv) from a condition on the initial state and a syntactic one on the run: if the
+registration manager is at rest (`RegIdle`: no uplink awaiting REG2, no REG1 target, start-up probing
+over — the steady state of a registered group) and no event of the run is an uplink datagram of type
+REG_NGP (0x9211 = 37393: the receiver has not forgotten the group), then no uplink is awaiting REG2
+at any tick. -/
+theorem C08_aux_noPending_of_idle (evs : List Ev) :
+    ∀ s : Sys F, RegIdle s.reg →
+      (∀ e ∈ evs, ∀ now cid data, e = .uplink now cid data → Codec.getPacketTypeS data ≠ some 37393) →
+      NoPendingAtTicks s evs := by
+  induction evs with
+  | nil => intro s _ _; trivial
+  | cons e es ih =>
+    intro s h hn
+    exact ⟨fun _ _ => h.1,
+      ih _ (step_reg_idle s e h (hn e List.mem_cons_self)) (fun e' he' => hn e' (List.mem_cons_of_mem _ he'))⟩
+
+/-- **Connected again (run level), with (iv) discharged**: the same as `C08_reconnect_within_30s_sys`
+for a state whose registration manager is at rest and a run without REG_NGP datagrams. -/
+theorem C08_reconnect_within_30s_sys_no_ngp (s : Sys F) (j : Nat) (l : FLink F) (evs : List Ev) (t0 : Nat)
+    (hl : s.links[j]? = some l) (hd : Down l) (hinv : RejoinInv s)
+    (hidx : s.links.findIdx? (·.core.connId == l.core.connId) = some j)
+    (hmono : MonoFrom t0 evs) (hgaps : TickGaps t0 evs)
+    (hlong : ∃ t, Ev.hk t ∈ evs ∧ t ≥ l.lastAttemptMs + 5000)
+    (hans : Answered l.core.connId s evs)
+    (hfb : l.core.connId ∉ s.failBind) (hnofb : ∀ e ∈ evs, e ≠ .failBind l.core.connId)
+    (hidle : RegIdle s.reg)
+    (hngp : ∀ e ∈ evs, ∀ now cid data, e = .uplink now cid data → Codec.getPacketTypeS data ≠ some 37393) :
+    ∃ pre d data post, evs = pre ++ .uplink d l.core.connId data :: post ∧
+      Codec.getPacketTypeS data = some 37378 ∧
+      (d < l.lastAttemptMs + 5000 + 1100 + 1100 ∨ d ≤ t0 + 1100 + 1100) ∧
+      ∃ l', (run s (pre ++ [.uplink d l.core.connId data])).links[j]? = some l' ∧
+        l'.core.connected = true ∧ l'.core.window = 20000 ∧ l'.core.inFlight = 0 ∧ l'.core.log = [] ∧
+        l'.queue = [] ∧ l'.core.phase = .warming 0 d :=
+  C08_reconnect_within_30s_sys s j l evs t0 hl hd hinv hidx hmono hgaps hlong hans hfb hnofb
+    (C08_aux_noPending_of_idle evs s hidle hngp)
+
+/-- Executable form of `AnswerBy` / `Answered` (used to check hypothesis (ii) on literal runs). -/
+def answerByB (cid dl : Nat) : List Ev → Bool
+  | [] => false
+  | .hk _ :: _ => false
+  | .uplink d c data :: es =>
+    if isReg3For cid (.uplink d c data) then decide (d ≤ dl) else answerByB cid dl es
+  | _ :: es => answerByB cid dl es
+
+theorem C08_aux_answerByB (cid dl : Nat) (es : List Ev) (h : answerByB cid dl es = true) : AnswerBy cid dl es := by
+  induction es with
+  | nil => simp [answerByB] at h
+  | cons e es ih =>
+    cases e with
+    | hk t => simp [answerByB] at h
+    | uplink d c data =>
+      simp only [answerByB] at h
+      simp only [AnswerBy]
+      split
+      · rename_i hc; rw [if_pos hc] at h; exact of_decide_eq_true h
+      · rename_i hc; rw [if_neg hc] at h; exact ih h
+    | client now pkt => exact ih (by simpa only [answerByB] using h)
+    | flush now => exact ih (by simpa only [answerByB] using h)
+    | setCfg cfg => exact ih (by simpa only [answerByB] using h)
+    | crit d => exact ih (by simpa only [answerByB] using h)
+    | failNext c => exact ih (by simpa only [answerByB] using h)
+    | failBind c => exact ih (by simpa only [answerByB] using h)
+
+def answeredB (cid : Nat) : Sys F → List Ev → Bool
+  | _, [] => true
+  | s, e :: es =>
+    (match e with
+      | .hk t => !((step s e).2.wire.any fun p => p.1 == cid && Codec.getPacketTypeS p.2 == some 37377) ||
+          answerByB cid (t + 1100) es
+      | _ => true) && answeredB cid (step s e).1 es
+
+theorem C08_aux_answeredB (cid : Nat) (evs : List Ev) :
+    ∀ s : Sys F, answeredB cid s evs = true → Answered cid s evs := by
+  induction evs with
+  | nil => intro s _; trivial
+  | cons e es ih =>
+    intro s h
+    simp only [answeredB, Bool.and_eq_true] at h
+    refine ⟨fun t he hw => ?_, ih _ h.2⟩
+    subst he
+    have h1 := h.1
+    simp only [Bool.or_eq_true, Bool.not_eq_true'] at h1
+    rcases h1 with h1 | h1
+    · obtain ⟨p, hp, hp1, hp2⟩ := hw
+      have : ((step s (.hk t)).2.wire.any fun p => p.1 == cid && Codec.getPacketTypeS p.2 == some 37377) = true :=
+        List.any_eq_true.2 ⟨p, hp, by simp [hp1, hp2]⟩
+      rw [this] at h1; cases h1
+    · exact C08_aux_answerByB cid _ es h1
+
+/-- Non-vacuity of the run-level theorem on `exSys` (link 1 = `exDown`: conn id 7, down, last attempt
+at 2000): reference time 6000; a client datagram, a keepalive on the OTHER link, a tick at 6900 (not
+due: 4900 ms after the last attempt), a straggler on link 1 ITSELF, a flush tick, a bind failure
+injected for the OTHER link, a configuration change, the tick at 7900 (due: attempt, REG2 on the
+wire), another client datagram, the REG3 at 8000, one more tick.  All hypotheses hold; the theorem
+yields the re-join at the REG3 (`d = 8000 < 2000 + 5000 + 1100 + 1100`). -/
+def exLiveRun : List Ev :=
+  [.client 6100 [0x80, 0x02, 0, 0, 0, 0, 0, 0], .uplink 6200 5 [0x90, 0x00], .hk 6900, .uplink 6950 7 [0x90, 0x00],
+   .flush 6960, .failBind 5, .setCfg {}, .hk 7900, .client 7950 [0x80, 0x02, 0, 0, 0, 0, 0, 1],
+   .uplink 8000 7 [0x92, 0x02], .hk 8900]
+
+theorem C08_aux_exSys_inv : RejoinInv exSys := by
+  intro j l hl
+  match j, hl with
+  | 0, hl =>
+    cases hl
+    exact ⟨by decide, fun _ => ⟨rfl, fun hp => by cases hp⟩⟩
+  | 1, hl =>
+    cases hl
+    exact ⟨fun _ => rfl, fun _ => ⟨rfl, fun _ => (C08_clean_def exDown).2 (by decide)⟩⟩
+  | (n + 2), hl => cases hl
+
+example :
+    ∃ pre d data post, exLiveRun = pre ++ .uplink d 7 data :: post ∧
+      Codec.getPacketTypeS data = some 37378 ∧
+      (d < 2000 + 5000 + 1100 + 1100 ∨ d ≤ 6000 + 1100 + 1100) ∧
+      ∃ l', (run exSys (pre ++ [.uplink d 7 data])).links[1]? = some l' ∧
+        l'.core.connected = true ∧ l'.core.window = 20000 ∧ l'.core.inFlight = 0 ∧ l'.core.log = [] ∧
+        l'.queue = [] ∧ l'.core.phase = .warming 0 d :=
+  C08_reconnect_within_30s_sys_no_ngp exSys 1 exDown exLiveRun 6000 rfl ⟨rfl, by decide, rfl⟩ C08_aux_exSys_inv
+    (by decide) (by simp [exLiveRun, MonoFrom, evClock]) (by simp [exLiveRun, TickGaps])
+    ⟨7900, by simp [exLiveRun], by decide⟩
+    (C08_aux_answeredB 7 exLiveRun exSys (by decide +kernel))
+    (by decide) (by simp [exLiveRun]; decide)
+    ⟨rfl, rfl, by decide⟩
+    (by
+      intro e he now cid data heq
+      subst heq
+      simp only [exLiveRun, List.mem_cons, Ev.uplink.injEq, reduceCtorEq, false_or, List.not_mem_nil, or_false] at he
+      rcases he with ⟨-, -, rfl⟩ | ⟨-, -, rfl⟩ | ⟨-, -, rfl⟩ <;> decide)
+
+
+/-- … and what that run really does: link 1 is connected (window 20000) after the REG3 at 8000 — the
+prefix of 10 events — and not before; the tick at 6900 made no attempt (stamp still 2000), the tick at
+7900 did; the live link 0 keeps its own window throughout. -/
+example :
+    ((run exSys (exLiveRun.take 10)).links.map fun l => (l.core.connected, l.core.window, l.lastAttemptMs)) =
+      [(true, 23060, 0), (true, 20000, 7900)] ∧
+    ((run exSys (exLiveRun.take 9)).links.map fun l => (l.core.connected, l.lastAttemptMs)) =
+      [(true, 0), (false, 7900)] ∧
+    ((run exSys (exLiveRun.take 3)).links.map fun l => (l.core.connected, l.lastAttemptMs)) =
+      [(true, 0), (false, 2000)] := by
+  decide +kernel
 
 end Srtla.Props.C08
